@@ -23,7 +23,8 @@ class C18(Prop):
     reach = ["hashseed_variants", "cwd_env_variants", "twice_in_process", "after_other_world", "cli_subprocess",
              "quic_world", "quic_zero_len_cid", "output_nonempty", "output_path_reused",
              "sslkeylogfile_in_environment_without_s", "quic_connection_ids_of_different_lengths",
-             "earlier_run_with_other_port_map", "cli_subprocess_optimised"]
+             "earlier_run_with_other_port_map", "cli_subprocess_optimised", "after_aborted_run",
+             "earlier_run_really_aborted"]
 
     def plan(self, tier):
         p = super().plan(tier)
@@ -35,7 +36,7 @@ class C18(Prop):
         R = Rng(seed, "C18")
         cfg = {"records_max": 5, "len_max": 1500, "isn_wrap": False, "seg_pct": 60, "quic_pct": 50,
                "quic": {"small": True, "zero_cid_pct": 40, "ncid_pct": 50, "hs_dup_pct": 40, "long_ch_pct": 40,
-                        "crypto_reorder_pct": 50}}
+                        "crypto_reorder_pct": 50, "net": {"dup": 120, "delay": 40, "_D": 2}}}
         spec = gen.gen_mixed_world(R.fork("world"), cfg, nconn=R.range(1, 3), with_noise=R.chance(30))
         spec["prop"] = "C18"
         spec["cli"] = random_cli(R.fork("cli"), [c for c in spec["conns"] if c["proto"] in ("tls", "quic")],
@@ -64,7 +65,7 @@ class C18(Prop):
         elif R.chance(60):
             # the secrets travel inside the capture (decryption secrets blocks), no -s option
             spec["keychan"] = {"mode": "dsb", "perm_seed": R.bits(30)}
-        spec["cli_sub"] = (idx % 8 == 0)
+        spec["cli_sub"] = (idx % 4 == 0)
         if spec["cli_sub"]:
             # the fresh-interpreter sample maps a server port of the world explicitly
             ports = sorted(set(c["s"]["port"] for c in spec["conns"] if c["proto"] in ("tls", "quic")))
@@ -156,6 +157,20 @@ class C18(Prop):
             judge("in-process-after-other-world", rr[1])
         else:
             out.count("other_world_failed")
+        # after a run that ended abnormally in the same process (capture truncated inside its last block; -s naming a
+        # missing file after -p ports were given): the next run starts from a clean state all the same
+        aborted = [("truncated-capture", dict(capture=ox["capture"][:-7], keylog=ox["keylog"], argv_opts=ox["argv"])),
+                   ("missing-key-log", dict(capture=ox["capture"], keylog=None, s_missing=True,
+                                            argv_opts=["-p", "8443", str(spec["conns"][0]["c"]["port"])]))]
+        for name, first in aborted:
+            rr = lane.sut(0).run(first["capture"], first["keylog"], first["argv_opts"],
+                                 extra_runs=[dict(capture=ex["capture"], keylog=ex["keylog"], argv_opts=ex["argv"])],
+                                 **({"s_missing": True} if first.get("s_missing") else {}))
+            out.exports += 2
+            out.count("reach:after_aborted_run")
+            if rr[0].exc is not None or rr[0].exit not in (0, None):
+                out.count("reach:earlier_run_really_aborted")
+            judge("in-process-after-aborted-run:" + name, rr[1])
         if spec.get("cli_sub"):
             for hs in spec.get("hs2", [5])[:1]:
                 env_extra = {"TZ": "Pacific/Chatham"}
